@@ -164,6 +164,10 @@ def table_programs():
         if x['want'] == 'ERR' or 'at' in x or x['sig'] in ('6800/JMP ext', '6800/JSR ext'):
             continue          # (jumps and calls must lead into the image: covered by programs())
         yield {'k': 'prog', 'cpu': '6800', 'src': '\torg $100\n%s\n\tswi\n' % x['line'], 'tag': x['line'].strip()}
+    # the extended form forced onto a direct-page address: the disassembly must ask for it again
+    for mn in sorted(set(x['line'].split()[0] for x in isa.forms_6800() if x['sig'].endswith(' dir'))):
+        for a in ('0', '$20', '$ff'):
+            yield {'k': 'prog', 'cpu': '6800', 'src': '\torg $100\n\t%s >%s\n\tswi\n' % (mn, a), 'tag': '%s >%s' % (mn, a)}
     for x in isa.forms_4004():
         if x['want'] == 'ERR' or 'at' in x or '\n' in x['line'].strip() or x['line'].split()[0] in ('jun', 'jms', 'jcn', 'isz'):
             continue          # (jumps must lead into the image: covered by programs())
@@ -246,8 +250,9 @@ def evaluate(case):
             return core.R(False, ck, '%s/dasl-%s' % (grp, 'hang' if ck == 'HANG' else 'crash'), '%s in dasl on image %s' % (ck, bytes(case['img']).hex()))
         T = clean(o.out.decode('latin-1'))
         Y, err = asm_image(cpu, T, True, BASE, BASE + 2)
-        if Y is None:
-            return core.R(True, 'X-not-reassemblable', nontrivial=False, transitions=2)    # X is not an image of a valid program
+        if Y is None or not Y:
+            # X is not an image of a valid program (nothing at all was decoded when the first instruction reaches past the image)
+            return core.R(True, 'X-not-reassemblable', nontrivial=False, transitions=2)
         r = roundtrip(cpu, Y, 'normalised from %s' % bytes(case['img']).hex())
         return r
     # assembler-driven
